@@ -71,8 +71,8 @@ func runC16(cfg *vh.Config) error {
 
 	// ------------------------------------------------------------ stream 1+2: generated packages, plain and mutated
 	rp := cfg.R.Fork("packages")
-	nPkg := cfg.Scale(90, 1500)
-	nAwk := cfg.Scale(12, 150)
+	nPkg := cfg.Scale(70, 1500)
+	nAwk := cfg.Scale(10, 150)
 	type pk struct {
 		p   *gPackage
 		mut *Mutation
@@ -85,7 +85,7 @@ func runC16(cfg *vh.Config) error {
 		pks = append(pks, pk{p: p})
 		jobs = append(jobs, &Job{ID: len(jobs), Kind: "j5s", Pkg: p.Pkg, Files: map[string]string{strings.ReplaceAll(p.Pkg, ".", "/") + "/a.j5s": p.text()}})
 	}
-	nMut := cfg.Scale(60, 600)
+	nMut := cfg.Scale(45, 600)
 	for i := 0; i < nMut; i++ {
 		p := genPackage(rp, false)
 		sv := p.Services[0]
@@ -213,7 +213,7 @@ func runC16(cfg *vh.Config) error {
 
 	// ------------------------------------------------------------ stream 4: buildMethod on hand-built descriptors
 	rm := cfg.R.Fork("method")
-	nMeth := cfg.Scale(400, 6000)
+	nMeth := cfg.Scale(300, 6000)
 	for i := 0; i < nMeth; i++ {
 		md := genMethDesc(rm)
 		r := handle(&Job{Kind: "method", Meth: &md}, nil)
@@ -238,7 +238,7 @@ func runC16(cfg *vh.Config) error {
 
 	// ------------------------------------------------------------ stream 5: hand-built source APIs (client stage)
 	ra := cfg.R.Fork("api")
-	nAPI := cfg.Scale(220, 3000)
+	nAPI := cfg.Scale(170, 3000)
 	var apiJobs []*Job
 	var hands []*HandAPI
 	for i := 0; i < nAPI; i++ {
